@@ -164,10 +164,13 @@ def EDIFF := 3   -- E_m - E_n
 def KRON := 4    -- 1 on pairs closer than degen_thresh, else 0
 def NKRON := 5   -- 0 on pairs closer than degen_thresh, else 1
 def PVAL := 6    -- dE/(dE^2 + eta^2)
+def EFUN := 7    -- any other real function of the band energies (used by the translator)
 
 open PExpr
 
 abbrev c (q : Rat) : PExpr := .const q
+/-- rational constant p/q (used by the translator: cheap to elaborate) -/
+def cq (p : Int) (q : Nat) : PExpr := .const (mkRat p q)
 
 def derivN : Nat → PExpr → PExpr
   | 0, x => x
@@ -820,15 +823,59 @@ structure Row where
   inv : Decl
 deriving Repr
 
-def checkRow (r : Row) : Bool :=
-  let e := termOf r.f r.v
+/-- the check of one row against an ARBITRARY structure term `e` (the hand-written `termOf r.f r.v`, or the term the
+    translator produced from the live source of the class) -/
+def checkRowTerm (e : PExpr) (r : Row) : Bool :=
   match grade e with
   | .bad => false
   | .zero => true            -- the observable vanishes identically for this variant: every declaration holds
   | .val t i =>
     declOK_TR t (isReal e) (tauFacts r.f r.v) r.tr && declOK_Inv i (isReal e) (tauFacts r.f r.v) r.inv
 
+def checkRow (r : Row) : Bool := checkRowTerm (termOf r.f r.v) r
+
 def checkTable (t : List Row) : Bool := t.all checkRow
+
+/-- `checkRowTerm` only looks at the grade and the realness of the term -/
+theorem checkRowTerm_congr (e h : PExpr) (r : Row) (hg : grade e = grade h) (hr : isReal e = isReal h) :
+    checkRowTerm e r = checkRowTerm h r := by
+  unfold checkRowTerm
+  rw [hg, hr]
+
+/-- One line of the table of a run: the row (class, variant, declared transforms), the term TRANSLATED from the live
+    Python source of the class, and a flag telling whether the declarations of this row are to be checked
+    (false only for the rows of the registered known findings).
+    `checkAll`: the translated term has the same grade and realness as the hand-written term of the class, and (if
+    flagged) the declared transforms are what the calculus predicts for the translated term. -/
+def checkLine (p : Row × PExpr × Bool) : Bool :=
+  let e := p.2.1
+  let h := termOf p.1.f p.1.v
+  decide (grade e = grade h) && (isReal e == isReal h) && (!p.2.2 || checkRowTerm e p.1)
+
+def checkAll (t : List (Row × PExpr × Bool)) : Bool := t.all checkLine
+
+theorem checkLine_spec (p : Row × PExpr × Bool) (h : checkLine p = true) :
+    grade p.2.1 = grade (termOf p.1.f p.1.v) ∧ isReal p.2.1 = isReal (termOf p.1.f p.1.v) ∧
+    (p.2.2 = true → checkRowTerm p.2.1 p.1 = true ∧ checkRow p.1 = true) := by
+  unfold checkLine at h
+  simp only [Bool.and_eq_true, decide_eq_true_eq, beq_iff_eq, Bool.or_eq_true, Bool.not_eq_true'] at h
+  obtain ⟨⟨hg, hr⟩, hc⟩ := h
+  refine ⟨hg, hr, ?_⟩
+  intro hf
+  have hc' : checkRowTerm p.2.1 p.1 = true := by
+    rcases hc with hc | hc
+    · rw [hf] at hc; exact absurd hc (by decide)
+    · exact hc
+  refine ⟨hc', ?_⟩
+  unfold checkRow
+  rw [← checkRowTerm_congr p.2.1 _ p.1 hg hr]
+  exact hc'
+
+/-- a table accepted by `checkAll`: every flagged row passes both with the translated and with the hand-written term -/
+theorem checkAll_spec (t : List (Row × PExpr × Bool)) (h : checkAll t = true) (p : Row × PExpr × Bool) (hp : p ∈ t) :
+    grade p.2.1 = grade (termOf p.1.f p.1.v) ∧ isReal p.2.1 = isReal (termOf p.1.f p.1.v) ∧
+    (p.2.2 = true → checkRowTerm p.2.1 p.1 = true ∧ checkRow p.1 = true) :=
+  checkLine_spec p ((List.all_eq_true.mp h) p hp)
 
 /-- one line of the `(name, der) → transform` map of `get_transform_TR / get_transform_Inv`
     (`none` = the function returns None: gauge non-covariant matrix, nothing declared) -/
